@@ -669,3 +669,27 @@ func VerifC04_HeaderFallibleHmac() {
 	verif.Assert(verif.BytesEq(h.v.Hmac.Value, verif.HmacOf(crypto.SHA256, secret, hdrEnc)), "VerifyHeader accepts => header MAC = HMAC(device secret, encoded header), also when the HMAC engine can fault")
 	verif.Assert(eng.err == nil, "a verdict is never based on a faulted HMAC computation")
 }
+
+// an owner (or manufacturer) key given as an X.509 chain is the LEAF certificate's
+// key - the key whose holder is the owner - whatever the issuing certificates carry
+func VerifC04_X5ChainKeyIsLeaf() {
+	verif.NoPanic()
+	verif.Bound("C04 x5chain", "public key encoded as X5CHAIN of 1..3 certificates; leaf and issuers of kinds {P-256, P-384, RSA-2048, RSA-3072} with distinct symbolic keys; through encode/decode")
+	lk := verif.Choose("leafkind", vcKinds)
+	leaf := vcPub(lk, "leaf")
+	chain := []*x509.Certificate{verif.NewCert(leaf, verif.Bytes("lserial", 4))}
+	for i, n := 0, verif.Choose("issuers", 3); i < n; i++ {
+		ik := verif.Choose("issuerkind"+string(rune('A'+i)), vcKinds)
+		chain = append(chain, verif.NewCert(vcPub(ik, "issuer"+string(rune('A'+i))), verif.Bytes("iserial"+string(rune('A'+i)), 4)))
+	}
+	pk, err := protocol.NewPublicKey(vwKeyType(lk, false), chain, false)
+	verif.Assert(err == nil, "X5CHAIN public key builds")
+	enc, err := cbor.Marshal(pk)
+	verif.Assert(err == nil, "encodes")
+	var back protocol.PublicKey
+	verif.Assert(cbor.Unmarshal(enc, &back) == nil, "decodes")
+	got, err := back.Public()
+	verif.Assert(err == nil, "the key parses")
+	verif.Assert(verif.BytesEq(verif.KeyID(got), verif.KeyID(leaf)), "the key of an X5CHAIN public key is its leaf certificate's key")
+	verif.Reached("end")
+}
